@@ -215,12 +215,12 @@ def unit_rm_encode(eng, shape, lazy, fp=False, prop="C01"):
             eng.prove("extension-word-is-value-mod-2^16-little-endian", eb == le16(ext[1] % 65536))
         else:
             w = eb[0] + 256 * eb[1]
-            eng.prove("extension-word-has-2-bytes", z3.Length(eb) == 2)
+            eng.prove("extension-word-has-2-bytes", slen(eb) == 2)
             # PDP-11: EA = (address of the extension word + 2 + word) mod 2^16, rel is the address of the extension word
             eng.prove("pc-relative-effective-address-is-the-target", (rel + 2 + w) % 65536 == ext[1] % 65536)
         if isinstance(e, Lazy) or True:
             size = e.size if isinstance(e, Lazy) else None
-            eng.prove("extension-word-announces-2-bytes", (size == 2) if isinstance(e, Lazy) else z3.Length(eb) == 2)
+            eng.prove("extension-word-announces-2-bytes", (size == 2) if isinstance(e, Lazy) else slen(eb) == 2)
     r = verify(eng, name, run, post, func=func)
     for o in r["obligations"]:
         o["cfg"] = dict(kind="rm", shape=shape, lazy=lazy, fp=fp)
@@ -638,7 +638,7 @@ def unit_compile_insn(eng, mnemonic, lazy, arity_delta=0):
                 calls.append((_k, operand, state))
                 e = b""
                 if _has and eng_.branch(_p):
-                    eng_.assume(z3.Length(_extb) == 2)
+                    eng_.assume(slen(_extb) == 2)
                     e = Lazy(_extb, "bytes", 2) if lazy else _extb
                 return (Lazy(_v, "int") if lazy else _v), e
             sobj.attrs["encode"] = Builtin("stub.encode(contract)", enc)
